@@ -283,7 +283,23 @@ def make_probe(desc, k):
                 lines += render(vals[n])
         pe = pat_expr(p)
         src = A.lit(v)
-        if pos == "decl":
+        if pos == "fortop":
+            # the pattern itself is the loop target: it is matched against each [index, item] pair
+            if p[0] != "L":
+                return None
+            ok, lines = True, []
+            for idx in (0, 1):
+                out, seen = [], set()
+                try:
+                    match(p, [idx, v], out, seen)
+                except Fail:
+                    ok = False
+                    break
+                vals = dict(out)
+                for n in names:
+                    lines += render(vals[n])
+            stmts = [A.For(pe, A.lst(src, A.lit(v)), prints)]
+        elif pos == "decl":
             stmts = [A.Declare(pe, src)] + prints
         elif pos == "assign":
             stmts = [A.Declare(V(n), A.Null()) for n in names] + [A.Assign(pe, src)] + prints
@@ -438,6 +454,10 @@ def make_probe(desc, k):
             "list_spread_of_object": [A.pr(A.ListE([(O, True)], False))],
             "list_spread_of_string": [A.pr(A.ListE([(S("ab"), True)], False))],
             "shorthand_not_a_name": [A.Declare(A.ObjectE([A.Single(I(1), False, False)]), O)],
+            "collect_and_spread_same_item": [A.Declare(A.ListE([(V(x), False), (V(y), True)], True), L)],
+            "collect_and_spread_only_item": [A.Declare(V(y), A.lst()), A.Assign(A.ListE([(V(y), True)], True), L)],
+            "collect_and_spread_in_for": [A.For(A.ListE([(V(x), False), (V(y), True)], True), A.lst(L), [])],
+            "collect_and_spread_in_params": [A.FuncStmt("mg%d" % k, [A.ListE([(V(x), False), (V(y), True)], True)], False, []), A.ExprStmt(A.call("mg%d" % k, L))],
         }
         return {"stmts": pre + table[name], "expect": None, "tag": "misuse", "what": name}
     raise ValueError(desc)
@@ -445,7 +465,8 @@ def make_probe(desc, k):
 
 MISUSE = ["spread_in_list_pattern", "spread_in_object_pattern", "collect_not_last_object", "collect_outside_pattern_list", "collect_outside_pattern_object",
           "duplicate_name_list", "duplicate_name_nested", "duplicate_name_object", "duplicate_rest_name", "spread_non_list_arg", "object_spread_of_list",
-          "list_spread_of_object", "list_spread_of_string", "shorthand_not_a_name"]
+          "list_spread_of_object", "list_spread_of_string", "shorthand_not_a_name",
+          "collect_and_spread_same_item", "collect_and_spread_only_item", "collect_and_spread_in_for", "collect_and_spread_in_params"]
 
 
 def show(p):
@@ -465,7 +486,7 @@ def run(rep, tier):
     rng = core.rng_for(PROP)
     P = pats(tier)
     descs = []
-    positions = ["decl", "assign", "for", "fn", "fn_empty", "for_empty"]
+    positions = ["decl", "assign", "for", "fortop", "fn", "fn_empty", "for_empty"]
     for rep_i in range(1 if tier == "quick" else 6):
       for pi in range(len(P)):
         seed = rng.randrange(1 << 30)
